@@ -39,7 +39,7 @@ type pair struct{ A, B int8 }
 
 const rule = "case = element type/comparator (int+typ.Compare via NewOrdered, int+reversed comparator via New, string via NewOrdered, " +
 	"2-field struct+lexicographic comparator) x universe 0..U (U in {3,12,40}) x history of add/rem/has/clear/clone/walk on a primary tree and " +
-	"(after a clone op) its clone; after EVERY op both trees are compared with sorted-multiset models: SliceInOrder == model, Len, Contains over " +
+	"(after clone ops) up to two clones of the same lineage, walks abandoned by a panicking callback; after EVERY op both trees are compared with sorted-multiset models: SliceInOrder == model, Len, Contains over " +
 	"the universe, String, Walk*==Slice* (with the tree read again from inside a walk callback), returned slices overwritten by the caller, Remove's result and single-occurrence effect, and pre/in/post-order must be explained by ONE binary tree; " +
 	"non-trivial = >=5 ops incl. a successful Remove of a node with two children, a Remove of an absent value, a duplicate Add"
 
@@ -114,11 +114,12 @@ func Run(c Case) pbt.Outcome {
 
 func run[T comparable](c Case, k kit[T]) pbt.Outcome {
 	var out pbt.Outcome
-	trees := [2]*tree[T]{{t: k.newT(), live: true}, {}}
-	seenTwoChild, seenAbsent, seenDup, seenClone, seenClear, seenBigClone := false, false, false, false, false, false
+	trees := [3]*tree[T]{{t: k.newT(), live: true}, {}, {}}
+	clones := 0
+	seenTwoChild, seenAbsent, seenDup, seenClone, seenClear, seenBigClone, seenThree, seenPanicWalk := false, false, false, false, false, false, false, false
 	maxN := 0
 
-	var lastPre [2][]int
+	var lastPre [3][]int
 	check := func(step int, which int, op Op, touched bool) string {
 		tr := trees[which]
 		if !tr.live {
@@ -178,8 +179,8 @@ func run[T comparable](c Case, k kit[T]) pbt.Outcome {
 
 	for i, op := range c.Ops {
 		which := 0
-		if op.T == 1 && trees[1].live {
-			which = 1
+		if t := op.T % 3; t > 0 && trees[t].live {
+			which = t
 		}
 		tr := trees[which]
 		v := op.V
@@ -237,23 +238,63 @@ func run[T comparable](c Case, k kit[T]) pbt.Outcome {
 			seenClear = true
 		case "clone":
 			cl := tr.t.Clone()
-			src := which
-			trees[1] = &tree[T]{t: cl, model: append([]int(nil), tr.model...), live: true}
-			lastPre[1] = nil
+			// up to two clones are alive next to the primary tree (three trees of one lineage): a new clone takes the free
+			// slot, or replaces the older clone - never the tree it was cloned from
+			dst := 1
+			if trees[1].live {
+				dst = 2
+				if trees[2].live {
+					dst = 1 + clones%2
+					if dst == which {
+						dst = 3 - dst
+					}
+				}
+			}
+			clones++
+			trees[dst] = &tree[T]{t: cl, model: append([]int(nil), tr.model...), live: true}
+			lastPre[dst] = nil
 			seenClone = true
 			if len(tr.model) >= 2 {
 				seenBigClone = true
 			}
-			// the fresh clone gets the full check, the source the "unchanged" check
-			if m := check(i, 1, op, true); m != "" {
+			if trees[1].live && trees[2].live {
+				seenThree = true
+			}
+			// the fresh clone gets the full check, every other tree the "unchanged" check
+			if m := check(i, dst, op, true); m != "" {
 				return pbt.Fail("%s", m)
 			}
-			if src == 0 {
-				if m := check(i, 0, op, false); m != "" {
-					return pbt.Fail("%s", m)
+			for w := 0; w < 3; w++ {
+				if w != dst {
+					if m := check(i, w, op, false); m != "" {
+						return pbt.Fail("%s", m)
+					}
 				}
 			}
 			continue
+		case "pwalk":
+			// a walk callback may leave early by panicking (recovered by the caller): that is the only way to stop a walk.
+			// Nothing of the abandoned walk may leak into later walks of this or any other tree.
+			stopAt := v % (len(tr.model) + 1)
+			walkOne := func(walk func(func(T))) {
+				defer func() { recover() }()
+				n := 0
+				walk(func(T) {
+					if n == stopAt {
+						panic("stop the walk")
+					}
+					n++
+				})
+			}
+			switch v % 3 {
+			case 0:
+				walkOne(tr.t.WalkPreOrder)
+			case 1:
+				walkOne(tr.t.WalkInOrder)
+			default:
+				walkOne(tr.t.WalkPostOrder)
+			}
+			seenPanicWalk = true
 		case "walk":
 			var a, b, d []T
 			// reading the tree from inside a walk callback is legal: at visit number V of each walk the callback
@@ -291,13 +332,13 @@ func run[T comparable](c Case, k kit[T]) pbt.Outcome {
 			continue
 		}
 		// both trees are re-checked after every op: that is the independence check for clones
-		for w := 0; w < 2; w++ {
+		for w := 0; w < 3; w++ {
 			if m := check(i, w, op, w == which); m != "" {
 				return pbt.Fail("%s", m)
 			}
 		}
 	}
-	for w := 0; w < 2; w++ {
+	for w := 0; w < 3; w++ {
 		if m := check(-1, w, Op{K: "final"}, true); m != "" {
 			return pbt.Fail("%s", m)
 		}
@@ -311,6 +352,8 @@ func run[T comparable](c Case, k kit[T]) pbt.Outcome {
 	lab(seenTwoChild, "remove-two-children")
 	lab(seenAbsent, "remove-absent")
 	lab(seenDup, "duplicate-add")
+	lab(seenThree, "three-trees-of-one-lineage")
+	lab(seenPanicWalk, "walk-abandoned-by-panic")
 	lab(seenClone, "clone")
 	lab(seenBigClone, "clone-of->=2")
 	lab(seenClear, "clear")
@@ -327,16 +370,16 @@ func genOps(t *rapid.T, u int, classes []int, profile int) []Op {
 	case 1:
 		kinds = []string{"add", "add", "add", "add", "add", "add", "add", "add", "add", "add", "add", "add", "add", "add", "rem", "rem", "walk", "clone"}
 	case 2:
-		kinds = []string{"add", "add", "add", "add", "add", "add", "rem", "rem", "rem", "rem", "rem", "rem", "has", "walk", "clone", "clear"}
+		kinds = []string{"add", "add", "add", "add", "add", "add", "rem", "rem", "rem", "rem", "rem", "rem", "has", "walk", "pwalk", "clone", "clone", "clear"}
 	default:
-		kinds = []string{"add", "add", "add", "add", "add", "add", "add", "add", "add", "rem", "rem", "rem", "rem", "rem", "has", "walk", "clone", "clear"}
+		kinds = []string{"add", "add", "add", "add", "add", "add", "add", "add", "add", "rem", "rem", "rem", "rem", "rem", "has", "walk", "pwalk", "clone", "clear"}
 	}
 	op := rapid.Custom(func(t *rapid.T) Op {
 		k := rapid.SampledFrom(kinds).Draw(t, "k")
 		if k == "clear" && rapid.IntRange(0, 3).Draw(t, "clr") != 0 {
 			k = "add"
 		}
-		return Op{K: k, V: rapid.IntRange(0, u).Draw(t, "v"), T: rapid.IntRange(0, 1).Draw(t, "t")}
+		return Op{K: k, V: rapid.IntRange(0, u).Draw(t, "v"), T: rapid.IntRange(0, 2).Draw(t, "t")}
 	})
 	return pbt.OpsOf(t, op, classes, "ops")
 }
@@ -472,7 +515,11 @@ func RunBig(c BigCase) pbt.Outcome {
 		ops = append(ops, Op{K: "rem", V: v, T: i % 2})
 	}
 	ops = append(ops, Op{K: "walk", V: 5, T: 1}, Op{K: "walk", V: 9})
-	out := Run(Case{Elem: c.Elem, U: c.U, Ops: ops, CheckEvery: max(c.N/24, 2)})
+	every := max(c.N/24, 2)
+	if c.N > 20000 {
+		every = c.N / 3 // a handful of full comparisons on the very big trees
+	}
+	out := Run(Case{Elem: c.Elem, U: c.U, Ops: ops, CheckEvery: every})
 	out.Evals = len(ops)
 	out.NonTrivial = out.Violation == "" && c.N >= 257
 	switch {
@@ -488,17 +535,20 @@ func RunBig(c BigCase) pbt.Outcome {
 
 var specBig = pbt.Register(&pbt.Spec[BigCase]{
 	Property: "C01", Name: "C01.big",
-	Rule: "big trees: N in {257, 300, 1023, 1025, 2000, 4097, 5000} (thorough also 20000) adds of pseudo-random values from 0..U (U ~ N/2: many duplicates) interleaved with removes, a Clone, then N/2 removes alternating " +
+	Rule: "big trees: N in {257, 300, 1023, 1025, 2000, 4097, 5000, 65537} (thorough also 20000, 100000, 140000) adds of pseudo-random values from 0..U (U ~ N/2: many duplicates) interleaved with removes, a Clone, then N/2 removes alternating " +
 		"between original and clone; full model comparison (in-order, Len, Contains sweep, one-tree oracle, walks with nested reads) at ~24 checkpoints and at the end; non-trivial = N >= 257",
 	Enum: func(shard, shards int, tier string, yield func(BigCase) bool) {
-		sizes := []int{257, 300, 1023, 1025, 2000, 4097, 5000}
+		sizes := []int{257, 300, 1023, 1025, 2000, 4097, 5000, 65537}
 		if tier == "thorough" {
-			sizes = append(sizes, 20000)
+			sizes = append(sizes, 20000, 100000, 140000)
 		}
 		k := 0
 		for _, n := range sizes {
 			for _, step := range []int{5, 1103} {
 				for _, elem := range []int{0, 2} {
+					if n > 20000 && tier != "thorough" && (step != 5 || elem != 0) {
+						continue // one variant of the very big trees in the quick tier
+					}
 					k++
 					if k%shards != shard {
 						continue
